@@ -34,30 +34,47 @@ func runC05(c *Ctx) {
 
 	c.rule("C05.G1", "cfiltersQuery.handleResponse: a filter is kept (targetFilter, cache, batch writer, headerIndex delete, positive Progress) only behind: both type assertions, both filter-type equalities, a headerIndex hit, gcs.FromNBytes=nil, builder.MakeHeaderForFilter=nil and filterHeader == curHeader", func() {
 		fn := c.fn(fnCFResp)
-		eff := find(fn, anyOf(
-			storeToField(q("targetFilter")),
-			callTo(putCache()), filterCachePut(),
-			callTo(addItem()),
-			mapDelete(loadsField(q("headerIndex"))),
-		))
-		eff = append(eff, progressReturns(fn, true)...)
+		kinds := []struct {
+			name string
+			sel  Sel
+		}{
+			{"q.targetFilter = filter", storeToField(q("targetFilter"))},
+			{"filter cache put", anyOf(callTo(putCache()), filterCachePut())},
+			{"batch writer AddItem", callTo(addItem())},
+			{"delete(q.headerIndex, hash)", mapDelete(loadsField(q("headerIndex")))},
+		}
+		var eff []ssa.Instruction
+		var missing []string
+		for _, k := range kinds {
+			x := find(fn, k.sel)
+			if len(x) == 0 {
+				missing = append(missing, k.name)
+			}
+			eff = append(eff, x...)
+		}
+		pr := progressReturns(fn, true)
+		if len(pr) == 0 {
+			missing = append(missing, "positive Progress return")
+		}
+		eff = append(eff, pr...)
+		c.verdict(len(missing) == 0, c.nm(fn)+" | every kind of keep-effect is present", c.P.Pos(fn.Pos()), "targetFilter, cache, batch writer, headerIndex delete, positive progress", "not found in the handler: "+join(missing))
 		const en = "keep filter (targetFilter/cache/AddItem/delete headerIndex/positive progress)"
 		getCF := c.P.Named(pWire, "MsgGetCFilters")
 		cf := c.P.Named(pWire, "MsgCFilter")
 		if getCF == nil || cf == nil {
 			panic(anchorErr{"wire.MsgGetCFilters / MsgCFilter"})
 		}
-		c.guarded(fn, okIs("req.(*wire.MsgGetCFilters)", find(fn, typeAsserts(types.NewPointer(getCF)))), 1, en, eff, 6, gDominate)
-		c.guarded(fn, okIs("resp.(*wire.MsgCFilter)", find(fn, typeAsserts(types.NewPointer(cf)))), 1, en, eff, 6, gDominate)
+		c.guarded(fn, okIs("req.(*wire.MsgGetCFilters)", find(fn, typeAsserts(types.NewPointer(getCF)))), 1, en, eff, 5, gDominate)
+		c.guarded(fn, okIs("resp.(*wire.MsgCFilter)", find(fn, typeAsserts(types.NewPointer(cf)))), 1, en, eff, 5, gDominate)
 		ftReq := c.field(pWire, "MsgGetCFilters", "FilterType")
 		ftResp := c.field(pWire, "MsgCFilter", "FilterType")
-		c.guarded(fn, equalIs("q.filterType vs request.FilterType", find(fn, binops(eqOps, loadsField(q("filterType")), loadsField(ftReq))), true), 1, en, eff, 6, gDominate)
-		c.guarded(fn, equalIs("q.filterType vs response.FilterType", find(fn, binops(eqOps, loadsField(q("filterType")), loadsField(ftResp))), true), 1, en, eff, 6, gDominate)
+		c.guarded(fn, equalIs("q.filterType vs request.FilterType", find(fn, binops(eqOps, loadsField(q("filterType")), loadsField(ftReq))), true), 1, en, eff, 5, gDominate)
+		c.guarded(fn, equalIs("q.filterType vs response.FilterType", find(fn, binops(eqOps, loadsField(q("filterType")), loadsField(ftResp))), true), 1, en, eff, 5, gDominate)
 		lk := find(fn, lookupsOn(loadsField(q("headerIndex"))))
-		c.guarded(fn, okIs("q.headerIndex[response.BlockHash]", lk), 1, en, eff, 6, gDominate)
+		c.guarded(fn, okIs("q.headerIndex[response.BlockHash]", lk), 1, en, eff, 5, gDominate)
 		fromN := c.funcObj(pGcs, "FromNBytes")
 		mk := c.funcObj(pBuilder, "MakeHeaderForFilter")
-		c.guarded(fn, errNil("gcs.FromNBytes", find(fn, callTo(fromN)), 1), 1, en, eff, 6, gDominate)
+		c.guarded(fn, errNil("gcs.FromNBytes", find(fn, callTo(fromN)), 1), 1, en, eff, 5, gDominate)
 		isMkHash := func(v ssa.Value) bool {
 			e, ok := v.(*ssa.Extract)
 			return ok && e.Index == 0 && valIsCallTo(mk)(e.Tuple)
@@ -71,8 +88,8 @@ func runC05(c *Ctx) {
 		mkEq := func(f *ssa.Function) guard {
 			return equalIs("filterHeader vs curHeader", find(f, binops(eqOps, isMkHash, loadsField(q("filterHeaders")))), true)
 		}
-		c.guarded(fn, c.liftGuard(fn, mkErr, 2), 1, en, eff, 6, gDominate)
-		c.guarded(fn, c.liftGuard(fn, mkEq, 2), 1, en, eff, 6, gDominate)
+		c.guarded(fn, c.liftGuard(fn, mkErr, 2), 1, en, eff, 5, gDominate)
+		c.guarded(fn, c.liftGuard(fn, mkEq, 2), 1, en, eff, 5, gDominate)
 	})
 
 	c.rule("C05.V1", "the header pair used for validation is (filterHeaders[i-1], filterHeaders[i]) with i = headerIndex[response.BlockHash]; the filter hashed is the one decoded from response.Data; prepareCFiltersQuery fetches block and filter header ancestors with the same (numFilters, stopHash), checks both lengths and indexes block i (from 1) under its own hash", func() {
@@ -212,28 +229,49 @@ func runC05(c *Ctx) {
 				}
 			}
 		})
-		okIdx := len(ups) == 1
+		okIdx := len(ups) == 1 && ir.LoopHeaderOf(ups[0].Block()) != nil
 		if okIdx {
 			mu := ups[0].(*ssa.MapUpdate)
-			phi, isPhi := mu.Value.(*ssa.Phi)
-			okIdx = isPhi
-			if isPhi {
-				initOne := false
-				for _, e := range phi.Edges {
-					if k, isC := ir.ConstInt(e); isC {
-						initOne = k == 1
-					}
-				}
-				okIdx = initOne
-				// the key is the hash of blockHeaders[i] with the same i
-				keyOK := ir.InfluencedBy(mu.Key, func(x ssa.Value) bool {
-					ia, ok := x.(*ssa.IndexAddr)
-					return ok && ia.Index == ssa.Value(phi) && ir.DerivesFrom(ia.X, func(y ssa.Value) bool {
-						e, ok := y.(*ssa.Extract)
-						return ok && e.Index == 0 && e.Tuple == bAnc[0].(ssa.Value)
-					})
+			h := ir.LoopHeaderOf(mu.Block())
+			lf := loopFormOf(h)
+			isBlockHeaders := func(y ssa.Value) bool {
+				return ir.DerivesFrom(y, func(z ssa.Value) bool {
+					e, ok := z.(*ssa.Extract)
+					return ok && e.Index == 0 && e.Tuple == bAnc[0].(ssa.Value)
 				})
-				okIdx = okIdx && keyOK
+			}
+			// value = counter + dv
+			dv, okV := counterOffset(lf, mu.Value)
+			// key = hash of blockHeaders[counter + di (+ low bound of a sub-slice)]
+			okKey := false
+			var elem int64
+			ir.InfluencedBy(mu.Key, func(x ssa.Value) bool {
+				ia, ok := x.(*ssa.IndexAddr)
+				if !ok || !isBlockHeaders(ia.X) {
+					return false
+				}
+				di, okI := counterOffset(lf, ia.Index)
+				if !okI {
+					return false
+				}
+				low := int64(0)
+				if sl, ok := ir.Strip(ia.X).(*ssa.Slice); ok {
+					k, isC := ir.ConstInt(sl.Low)
+					if sl.Low == nil || !isC || sl.High != nil {
+						return false
+					}
+					low = k
+				}
+				okKey, elem = true, di+low
+				return true
+			})
+			okIdx = okV && okKey && dv == elem
+			if okIdx {
+				// the loop covers elements 1 .. len-1 of blockHeaders
+				okIdx = c.fullRangeOff(fp, h, "the loop building headerIndex (elements 1..len-1; element 0 is only the predecessor)", func(v ssa.Value) bool {
+					_, isSl := ir.Strip(v).(*ssa.Slice)
+					return !isSl && isBlockHeaders(v)
+				}, elem-1, elem, func(*ssa.Return) bool { return true })
 			}
 		}
 		c.verdict(okIdx, c.nm(fp)+" | headerIndex[blockHeaders[i].BlockHash()] = i for i from 1", c.P.Pos(fp.Pos()), "index map built from position 1 with matching key/value index", "headerIndex is not built as hash(blockHeaders[i]) -> i starting at 1 (position 0 is the predecessor used only for validation)", c.ats(ups)...)
